@@ -33,7 +33,13 @@ def transfers_of(ix, s):
     k, inner = s.wasm_msg()
     out = []
     if k == "bank" and tag(inner) == "agg" and payload(inner)[1] == "Send":
-        out.append(("bank-send", None, ix.inline(sym.field(inner, "to_address")), sym.field(inner, "amount")))
+        coins = sym.field(inner, "amount")
+        amt = coins
+        for x in sym.walk(coins):
+            if tag(x) == "agg" and payload(x)[0].endswith("cosmwasm_std::Coin"):
+                amt = sym.field(x, "amount")
+                break
+        out.append(("bank-send", None, ix.inline(sym.field(inner, "to_address")), amt))
     elif k == "wasm":
         im = s.inner_msg()
         mv = ix.msg_variant(im) if im is not None else None
